@@ -208,10 +208,15 @@ def run_program(rec, style, scratch):
     old = signal.signal(signal.SIGVTALRM, _on_timer)
     signal.setitimer(signal.ITIMER_VIRTUAL, CPU_BUDGET)
     try:
-        return run_program_(rec, style, scratch)
+        try:
+            return run_program_(rec, style, scratch)
+        except Hang:
+            # the budget is CPU time of the whole worker (garbage collection included): ask once more, generously
+            signal.setitimer(signal.ITIMER_VIRTUAL, 10 * CPU_BUDGET)
+            return run_program_(rec, style, scratch)
     except Hang:
         first, second = split_program(rec)
-        return {"st": "hang", "data": None, "err": f"no result after {CPU_BUDGET} s of CPU time",
+        return {"st": "hang", "data": None, "err": f"no result after {CPU_BUDGET} s and again after {10 * CPU_BUDGET} s of CPU time",
                 "texts": [render_lines(x, style) for x in (first, second) if x], "side": None}
     finally:
         signal.setitimer(signal.ITIMER_VIRTUAL, 0)
